@@ -34,6 +34,9 @@ func init() {
 		"vrt_BytesEq":  vrtBytesEq,
 		"vrt_StrEq":    vrtStrEq,
 		"vrt_Yield":    vrtYield,
+		"vrt_Quiesce":  vrtQuiesce,
+		"vrt_Sched":    vrtSched,
+		"vrt_Go":       vrtGo,
 		"vrt_Wake":     vrtWake,
 		"vrt_Observe":  vrtObserve,
 		"vrt_Note":     stubNop,
@@ -46,7 +49,7 @@ func init() {
 		"vrt_ConnWritten":  vrtConnWritten,
 		"vrt_ConnFailWrites": vrtConnFailWrites,
 		"vrt_ConnLive":       func(ex *Exec, fn *ssa.Function, args []Value) []Value { connOf(ex, args[0]).live = true; return nil },
-		"vrt_ConnEOF":        func(ex *Exec, fn *ssa.Function, args []Value) []Value { connOf(ex, args[0]).eof = true; return nil },
+		"vrt_ConnEOF":        func(ex *Exec, fn *ssa.Function, args []Value) []Value { ex.schedPoint("eof"); connOf(ex, args[0]).eof = true; return nil },
 		"vrt_IsOpaque":  vrtIsOpaque,
 		"vrt_Fail":      vrtFail,
 		"vrt_ClockFrozen": func(ex *Exec, fn *ssa.Function, args []Value) []Value { ex.clockFrozen = true; return nil },
@@ -242,6 +245,7 @@ func vrtPanics(ex *Exec, fn *ssa.Function, args []Value) []Value {
 }
 
 func vrtYield(ex *Exec, fn *ssa.Function, args []Value) []Value {
+	ex.schedPoint("yield")
 	g := ex.cur
 	g.yielding = true
 	ex.reschedule()
@@ -249,7 +253,42 @@ func vrtYield(ex *Exec, fn *ssa.Function, args []Value) []Value {
 	return nil
 }
 
+// vrt_Quiesce(): the caller goes on only when no other goroutine can run (never earlier, whatever
+// the schedule deviations).
+func vrtQuiesce(ex *Exec, fn *ssa.Function, args []Value) []Value {
+	ex.schedPoint("quiesce")
+	g := ex.cur
+	g.quiescing = true
+	if ex.schedOn && g.lastEv < len(ex.schedTrace) {
+		ex.schedTrace[g.lastEv].Blocks = true
+	}
+	ex.reschedule()
+	g.quiescing = false
+	return nil
+}
+
+// vrt_Sched(k): schedule mode. From here on every visible operation (channel operation, close, go
+// statement, socket operation, sleep, harness environment action) is a point at which another
+// runnable goroutine may run first, and every blocking point may pick any runnable goroutine; at
+// most k such deviations from the default cooperative schedule per path.
+func vrtSched(ex *Exec, fn *ssa.Function, args []Value) []Value {
+	k := args[0].(*Term)
+	if !k.IsConst() {
+		ex.unsupported("vrt_Sched with a symbolic bound")
+	}
+	ex.schedOn = true
+	ex.schedBudget = int(k.k)
+	return nil
+}
+
+// vrt_Go(f): go f() with a goroutine identity the native replay can reproduce.
+func vrtGo(ex *Exec, fn *ssa.Function, args []Value) []Value {
+	ex.spawn(args[0], nil, nil)
+	return nil
+}
+
 func vrtWake(ex *Exec, fn *ssa.Function, args []Value) []Value {
+	ex.schedPoint("wake")
 	for _, g := range ex.gs {
 		g.sleeping = false
 	}
@@ -338,6 +377,7 @@ func connOf(ex *Exec, v Value) *connScript {
 }
 
 func stubTCPRead(ex *Exec, fn *ssa.Function, args []Value) []Value {
+	ex.schedPoint("conn.Read")
 	cs := connOf(ex, args[0])
 	buf := args[1].(SliceV)
 	if cs.live {
@@ -373,6 +413,7 @@ func stubTCPRead(ex *Exec, fn *ssa.Function, args []Value) []Value {
 }
 
 func stubTCPWrite(ex *Exec, fn *ssa.Function, args []Value) []Value {
+	ex.schedPoint("conn.Write")
 	cs := connOf(ex, args[0])
 	b := args[1].(SliceV)
 	if cs.closed || cs.failWrites {
@@ -387,6 +428,7 @@ func stubTCPWrite(ex *Exec, fn *ssa.Function, args []Value) []Value {
 }
 
 func stubTCPClose(ex *Exec, fn *ssa.Function, args []Value) []Value {
+	ex.schedPoint("conn.Close")
 	cs := connOf(ex, args[0])
 	cs.closed = true
 	return []Value{IfaceV{}}
@@ -440,6 +482,7 @@ func vrtDeepEqual(ex *Exec, fn *ssa.Function, args []Value) []Value {
 
 // vrt_ConnPushRead(conn, data): the next Read on conn returns data (then EOF when the script ends).
 func vrtConnPushRead(ex *Exec, fn *ssa.Function, args []Value) []Value {
+	ex.schedPoint("push")
 	cs := connOf(ex, args[0])
 	b := args[1].(SliceV)
 	var snap SliceV
@@ -465,6 +508,7 @@ func vrtConnWritten(ex *Exec, fn *ssa.Function, args []Value) []Value {
 }
 
 func vrtConnFailWrites(ex *Exec, fn *ssa.Function, args []Value) []Value {
+	ex.schedPoint("failwrites")
 	connOf(ex, args[0]).failWrites = true
 	return nil
 }
